@@ -1,6 +1,7 @@
 // PNG: gil writer for all supported types + libpng-written palette / tRNS / interlaced variants.
 #include "iosim.hpp"
 #include "fmt_common.hpp"
+#include "iosim_rt.hpp"
 #include <boost/gil/extension/io/png.hpp>
 #include <png.h>
 #include <zlib.h>
@@ -82,6 +83,15 @@ bool make(std::string const& v, int w, int h, uint64_t cs, Bytes& out)
     return false;
 }
 
+std::vector<Variant> const& g_fmt_variants()
+{
+    static std::vector<Variant> const v = {{"gray1", "gray1"}, {"gray2", "gray2"}, {"gray4", "gray4"}, {"gray8", "gray8"}, {"gray16", "gray16"}, {"ga8", "ga8"}, {"ga16", "ga16"},
+                  {"rgb8", "rgb8"}, {"rgb16", "rgb16"}, {"rgba8", "rgba8"}, {"rgba16", "rgba16"},
+                  {"pal8", "rgb8"}, {"pal4", "rgb8"}, {"pal1", "rgb8"}, {"pal8trns", "rgba8"}, {"rgb8trns", "rgba8"}, {"gray8trns", "ga8"},
+                  {"rgb8i", "rgb8"}, {"gray4i", "gray4"}, {"rgba16i", "rgba16"}};
+    return v;
+}
+
 using any_t = gil::any_image<gil::gray8_image_t, gil::gray16_image_t, gil::rgb8_image_t, gil::rgba8_image_t, gil::rgb16_image_t, gil::rgba16_image_t>;
 
 Outcome read(ReadSpec const& s, Bytes& b)
@@ -137,17 +147,72 @@ long declared(Bytes const& b)
     return (long)(w * h);
 }
 
+Outcome roundtrip(Json const& plan)
+{
+    std::string v = plan.str("variant");
+    gil::image_write_info<Tag> info;
+    for (auto const& o : plan.at("opts").a)
+    {
+        if (o.s == "z1") info._compression_level = 1;
+        if (o.s == "z9") info._compression_level = 9;
+        if (o.s == "interlace") info._interlace_method = PNG_INTERLACE_ADAM7;
+    }
+    if (v == "gray1") return RoundTrip<Tag, gil::gray1_image_t, false>::run(plan, "png", info);
+    if (v == "gray2") return RoundTrip<Tag, gil::gray2_image_t, false>::run(plan, "png", info);
+    if (v == "gray4") return RoundTrip<Tag, gil::gray4_image_t, false>::run(plan, "png", info);
+    if (v == "gray8") return RoundTrip<Tag, gil::gray8_image_t, false>::run(plan, "png", info);
+    if (v == "gray16") return RoundTrip<Tag, gil::gray16_image_t, false>::run(plan, "png", info);
+    if (v == "ga8") return RoundTrip<Tag, gil::gray_alpha8_image_t, false>::run(plan, "png", info);
+    if (v == "ga16") return RoundTrip<Tag, gil::gray_alpha16_image_t, false>::run(plan, "png", info);
+    if (v == "rgb8") return RoundTrip<Tag, gil::rgb8_image_t, true>::run(plan, "png", info);
+    if (v == "rgb16") return RoundTrip<Tag, gil::rgb16_image_t, true>::run(plan, "png", info);
+    if (v == "rgba8") return RoundTrip<Tag, gil::rgba8_image_t, true>::run(plan, "png", info);
+    if (v == "rgba16") return RoundTrip<Tag, gil::rgba16_image_t, true>::run(plan, "png", info);
+    Outcome o; o.cls = "skipped:type"; return o;
+}
+
+template <class Native> Outcome paths_for(Json const& plan, Bytes& bytes, PathsCfg const& cfg)
+{
+    static char const* const names[] = {"gray8", "rgb8", "rgba8", "rgb16"};
+    return PathsFor<Tag, Native, any_t, Native, gil::gray8_pixel_t, gil::rgb8_pixel_t, gil::rgba8_pixel_t, gil::rgb16_pixel_t>::run(plan, bytes, "png", cfg, names);
+}
+
+Outcome paths(Json const& plan)
+{
+    std::string v = plan.str("variant");
+    Bytes bytes;
+    if (!make(v, (int)plan.num("w", 1), (int)plan.num("h", 1), (uint64_t)plan.num("cseed"), bytes)) { Outcome o; o.cls = "skipped:variant"; return o; }
+    PathsCfg cfg;
+    // png/detail/scanline_read.hpp: "scanline_read_iterator cannot read interlaced png images."
+    cfg.scan_refused = v == "rgb8i" || v == "gray4i" || v == "rgba16i";
+    std::string native;
+    for (auto const& x : g_fmt_variants()) if (x.name == v) native = x.native;
+    cfg.any_ok = native == "gray8" || native == "gray16" || native == "rgb8" || native == "rgba8" || native == "rgb16" || native == "rgba16";
+    if (native == "gray1") return paths_for<gil::gray1_image_t>(plan, bytes, cfg);
+    if (native == "gray2") return paths_for<gil::gray2_image_t>(plan, bytes, cfg);
+    if (native == "gray4") return paths_for<gil::gray4_image_t>(plan, bytes, cfg);
+    if (native == "gray8") return paths_for<gil::gray8_image_t>(plan, bytes, cfg);
+    if (native == "gray16") return paths_for<gil::gray16_image_t>(plan, bytes, cfg);
+    if (native == "ga8") return paths_for<gil::gray_alpha8_image_t>(plan, bytes, cfg);
+    if (native == "ga16") return paths_for<gil::gray_alpha16_image_t>(plan, bytes, cfg);
+    if (native == "rgb8") return paths_for<gil::rgb8_image_t>(plan, bytes, cfg);
+    if (native == "rgb16") return paths_for<gil::rgb16_image_t>(plan, bytes, cfg);
+    if (native == "rgba8") return paths_for<gil::rgba8_image_t>(plan, bytes, cfg);
+    if (native == "rgba16") return paths_for<gil::rgba16_image_t>(plan, bytes, cfg);
+    Outcome o; o.cls = "skipped:variant"; return o;
+}
+
 Format make_format()
 {
     Format f;
     f.name = "png"; f.ext = "png";
-    f.variants = {{"gray1", "gray1"}, {"gray2", "gray2"}, {"gray4", "gray4"}, {"gray8", "gray8"}, {"gray16", "gray16"}, {"ga8", "ga8"}, {"ga16", "ga16"},
-                  {"rgb8", "rgb8"}, {"rgb16", "rgb16"}, {"rgba8", "rgba8"}, {"rgba16", "rgba16"},
-                  {"pal8", "rgb8"}, {"pal4", "rgb8"}, {"pal1", "rgb8"}, {"pal8trns", "rgba8"}, {"rgb8trns", "rgba8"}, {"gray8trns", "ga8"},
-                  {"rgb8i", "rgb8"}, {"gray4i", "gray4"}, {"rgba16i", "rgba16"}};
+    f.variants = g_fmt_variants();
     f.native_types = {"gray1", "gray2", "gray4", "gray8", "gray16", "ga8", "ga16", "rgb8", "rgb16", "rgba8", "rgba16"};
     f.convert_types = {"gray8", "rgb8", "rgba8", "rgb16"};
     f.devices = {"FILE", "istream", "name"};
+    f.write_types = {"gray1", "gray2", "gray4", "gray8", "gray16", "ga8", "ga16", "rgb8", "rgb16", "rgba8", "rgba16"};
+    f.write_options = {"z1", "z9"}; // ADAM7 is not offered: the writer emits one pass only and libpng then aborts in png_write_end
+    f.roundtrip = roundtrip; f.paths = paths;
     f.make = make; f.read = read; f.fields = fields; f.declared_pixels = declared;
     return f;
 }
